@@ -1187,8 +1187,123 @@ def corr_op_members(ctx, corr):
                                            what="operator member `%s`: %s" % (' '.join(toks), msg)))
 
 
+# ---------------------------------------------------------------------------
+# friend declarations: extracted friend_stmt (Parse/FriendStmt.v) vs parse_string of `struct S_ { friend ... };`
+
+def real_friend(text):
+    from harness import decl
+    try:
+        d = impl.parse_string('struct S_ { friend %s };' % text)
+    except (impl.CxxParseError, AssertionError, RecursionError):
+        return ('err',)
+    ns = d.namespace
+    if len(ns.classes) != 1:
+        return ('other',)
+    c = ns.classes[0]
+    if len(c.friends) != 1 or c.fields or c.classes or c.typedefs or c.using or c.methods:
+        return ('other',)
+    fr = c.friends[0]
+    if fr.cls is not None:
+        q = fr.cls.typename
+        if fr.cls.template or q.classkey or len(q.segments) != 1 or not isinstance(q.segments[0], T.NameSpecifier) or q.segments[0].specialization:
+            return ('other',)
+        return ('ok', 'type', q.segments[0].name)
+    o = fr.fn
+    if (o.operator or o.has_trailing_return or o.raw_requires or o.template or o.msvc_convention or len(o.name.segments) != 1
+            or not isinstance(o.name.segments[0], T.NameSpecifier) or o.name.segments[0].specialization or o.constructor or o.destructor):
+        return ('other',)
+    val = lambda x: None if x is None else tuple(t.value for t in x.tokens)
+    try:
+        ps = tuple((decl.from_real(q.type), q.name) for q in o.parameters)
+        if any(q.default is not None or q.param_pack for q in o.parameters):
+            return ('other',)
+        t = ('F', decl.from_real(o.return_type), ps, o.vararg)
+    except decl.Unrepresentable:
+        return ('other',)
+    return ('ok', 'fn', o.name.segments[0].name, (o.constexpr, o.extern, o.inline, o.static, o.explicit, o.virtual), t,
+            (o.const, o.volatile, o.override, o.final, {None: 0, '&': 1, '&&': 2}[o.ref_qualifier], val(o.throw), val(o.noexcept),
+             o.pure_virtual, o.deleted, o.default, o.has_body))
+
+
+def corr_friends(ctx, corr):
+    from harness import decl
+    from harness.props import c02
+    rng = ctx.rng
+    cases = []
+    for _ in range(ctx.scale(700, 14000)):
+        pre = [rng.choice(['constexpr', 'inline', 'static', 'const', 'virtual']) for _ in range(rng.choice([0, 0, 0, 1, 2]))]
+        ty = [rng.choice(['Foo', 'T', 'bool_t', 'Bar', 'void'])]
+        if rng.random() < 0.25:
+            toks = pre + ty + [';']
+        else:
+            for _ in range(rng.choice([0, 0, 1, 2])):
+                ty += rng.choice([['*'], ['*', 'const'], ['&'], ['&&']])
+            ps = []
+            for j in range(rng.choice([0, 1, 1, 2])):
+                while True:
+                    q = decl.rand_type(rng, rng.choice([0, 1, 2]))
+                    if decl.var_ok(q):
+                        break
+                ps.append((q, rng.choice([None, 'a%d' % j])))
+            toks = pre + ty + [rng.choice(['ff', 'swap', 'get'])] + ['('] + decl.print_params(tuple(ps), False) + [')']
+            for _ in range(rng.choice([0, 0, 1])):
+                toks += rng.choice(MS_QUALS)
+            toks += list(rng.choice(MS_ENDS))
+        cases.append(toks)
+        if rng.random() < 0.3:
+            cases.append([t for t in c02.mutate(rng, toks) if t != '}'] or [';'])
+    lines, nms = [], []
+    for toks in cases:
+        names = decl.Names()
+        lines.append([118] + decl.enc_tokens(toks + ['}', ';'], names))
+        nms.append(names)
+    for toks, o, names in zip(cases, run_driver(lines), nms):
+        corr.cases += 1
+        if o[0] == 0:
+            fl = [bool(x) for x in o[2:11]]
+            if o[11] == 0:
+                m = ('ok', 'type', names.rev.get(o[12], 'void' if o[12] == 0 else '?'), o[1])
+            else:
+                nm = names.rev.get(o[12], '?')
+                ln = o[13]
+                t, _j = decl.dec_type(o, 14, names)
+                i = 14 + ln
+
+                def opt(i):
+                    if o[i] == 0:
+                        return None, i + 1
+                    cnt = o[i + 1]
+                    vals = tuple(names.rev[o[i + 2 + 2 * q + 1]] if o[i + 2 + 2 * q + 1] else impl.TT[o[i + 2 + 2 * q]] for q in range(cnt))
+                    return vals, i + 2 + 2 * cnt
+                q5 = (bool(o[i]), bool(o[i + 1]), bool(o[i + 2]), bool(o[i + 3]), o[i + 4])
+                i += 5
+                th, i = opt(i)
+                ne, i = opt(i)
+                q = q5 + (th, ne, bool(o[i]), bool(o[i + 1]), bool(o[i + 2]), bool(o[i + 3]))
+                m = ('ok', 'fn', nm, (fl[2], fl[3], fl[4], fl[5], fl[6], fl[7]), t, q, o[1])
+        else:
+            m = ('err', o[1])
+        r = real_friend(' '.join(toks))
+        k = "friend:" + (m[0] if m[0] == 'ok' else 'err%d' % m[1]) + "/" + r[0]
+        corr.dist[k] = corr.dist.get(k, 0) + 1
+        msg = None
+        if m[0] == 'ok' and m[-1] == 2:
+            if r[0] == 'err':
+                msg = "model decodes the friend declaration but the implementation rejects it"
+            elif r[0] == 'ok' and tuple(r[1:]) != tuple(m[1:-1]):
+                msg = "model %s; implementation %s" % (m[1:-1], r[1:])
+        elif m[0] == 'err' and m[1] in (1, 2, 3) and r[0] == 'ok':
+            msg = "model rejects (code %d) but the implementation reports %s" % (m[1], r[1:])
+        elif m[0] == 'err' and m[1] == 9:
+            msg = "model ran out of fuel"
+        if msg:
+            corr.disagreements.append(dict(case=dict(kind='corr-friend', tokens=toks), model=str(m)[:400], impl=str(r)[:400],
+                                           what="friend declaration `friend %s`: %s" % (' '.join(toks), msg)))
+
+
 def correspond(ctx):
     corr = c05.correspond(ctx)
+    corr_friends(ctx, corr)
     corr_op_members(ctx, corr)
     corr_conv_ops(ctx, corr)
     corr_finish(ctx, corr)
